@@ -46,6 +46,7 @@ class G:
         self.rng = rng
         self.dims = dims
         self.thorough = thorough
+        self.big = False     # set per run by the generator (rare)
         self.pool = []       # remembered array specs for deliberate re-use
         self.models = []     # (op index, kind) of model-returning ops so far
 
@@ -69,14 +70,20 @@ class G:
         return int(self.choice(self.dims))
 
     def K(self):
-        return int(self.choice([2, 2, 3, 3, 4] if self.thorough else [2, 2, 3]))
+        return int(self.choice([2, 2, 3, 3, 4, 5] if self.thorough
+                               else [2, 2, 3, 3, 4]))
 
     def F(self, odd=False):
+        if self.big and self.coin(0.4):
+            return 33      # with N ~ 300-1200: more than 2**16 elements
         if odd:
             return int(self.choice([1, 3, 3, 5, 7] if self.thorough else [1, 3, 3, 5]))
         return int(self.choice([1, 2, 3, 4]))
 
     def N(self, lo=6, hi=24):
+        if self.big and self.coin(0.5):
+            # a few runs use large inputs: size-dependent code paths
+            return int(self.rng.randint(300, 1200))
         return int(self.rng.randint(lo, hi + 1))
 
     def layout(self):
@@ -963,6 +970,21 @@ class _Mask:
 # --------------------------------------------------------------------------
 
 def gen_aligner(g, K, F, oracle=True):
+    spec = _gen_aligner(g, K, F, oracle)
+    # shared aligner objects are keyed by their configuration: re-use earlier
+    # configurations so that one aligner object serves several operations
+    pool = getattr(g, 'aligner_pool', None)
+    if pool is None:
+        pool = g.aligner_pool = []
+    same = [a for a in pool if a.get('_F', F) == F
+            and (oracle or a['kind'] != 'oracle')]
+    if same and g.coin(0.6):
+        return {k: v for k, v in g.choice(same).items() if k != '_F'}
+    pool.append(dict(spec, _F=F))
+    return spec
+
+
+def _gen_aligner(g, K, F, oracle=True):
     kinds = ['greedy', 'dhtv'] + (['oracle'] if oracle else [])
     kind = g.choice(kinds)
     if kind == 'dhtv':
